@@ -286,3 +286,22 @@ func Stub(name string, f interface{}) {}
 // Fresh (engine): an arbitrary value in [lo,hi] that is not a harness input (used by stubs whose
 // contract leaves the result open). Natively stubs never run.
 func Fresh(tag string, lo, hi int64) int64 { return lo }
+
+// CrashOp returns the description of the file-mutating call before which the Crashable
+// process `tag` was killed ("" when it was not killed), e.g. "write /vr/a/2020.bin off=38464 len=24".
+func CrashOp(tag string) string {
+	load()
+	return model["crashop:"+tag]
+}
+
+// Carry hands a concrete value computed inside a Crashable process over to the native replay,
+// where the process is not re-run (its disk image is restored instead).
+func Carry(tag string, v int64) int64 {
+	load()
+	if s, ok := model["carry:"+tag]; ok {
+		if x, err := strconv.ParseInt(s, 10, 64); err == nil {
+			return x
+		}
+	}
+	return v
+}
